@@ -72,6 +72,7 @@ def run_world(spec, plan=None, opts=None, extra_argv=(), mode='in',
         w.r = r
         w.events = r.events
         w.info = runcase.parse_output(w.out)
+        w.cviol = contract_viols(w.events)
         w.mdir = mdir
     finally:
         if own_root and not keep:
@@ -101,3 +102,21 @@ def _shape_node(n):
                 [(t['name'], t['kind']) for t in n['tests']]]
     return ['s', n.get('layer'), n.get('level'),
             [_shape_node(c) for c in n.get('ch', [])]]
+
+
+def contract_viols(events):
+    """contract.violation events recorded by the in-run monitors."""
+    out = []
+    for e in events:
+        if e.get('k') == 'contract.violation':
+            d = {k: v for k, v in e.items()
+                 if k not in ('k', 'seq', 't', 'contract')}
+            out.append({'rule': 'contract:' + str(e.get('contract')),
+                        'mech': 'contract-' + str(e.get('contract')),
+                        'detail': d})
+    return out
+
+
+def monitor_errors(events):
+    return [(e.get('where'), e.get('err')) for e in events
+            if e.get('k') == 'monitor.error']
